@@ -89,6 +89,9 @@ def gen_worker(args):
         is_bytes = rng.random() < 0.35
         kinds = rng.choice([("bytes",), ("bytes", "bits")]) if is_bytes else rng.choice([("str",), ("str", "regex"), ("str", "regex")])
         spec = gen_grammar.gen_spec(rng, kinds=kinds, depth=rng.randint(1, 3), n_nt=rng.randint(1, 3))
+        if rng.random() < 0.2:
+            spec = gen_grammar.gen_nullable_spec(rng)
+            is_bytes = 'b"' in spec
         try:
             fan = Fandango(spec)
             g = fan.grammar
@@ -153,12 +156,13 @@ def correspondence(res):
             continue
         if v is None:
             raise Broken("evaluation failed (case file)", repr(infos[i]))
-        if v == 0 and infos[i]["has_regex"] and "regex-greedy-vs-fragmented" in sigs:
+        if v == 2 and infos[i]["has_regex"] and "regex-greedy-vs-fragmented" in sigs:
             res.known(KNOWN)
             res.bump("known_regex_greedy")
             continue
         if len(res.violations) < 3:
-            what = ("for some way of cutting the input, the complete parses after the last piece differ from the one-shot forest" if v == 0 else
+            what = ("for some way of cutting the input, a parse of the whole input is missing after the last piece" if v == 0 else
+                    "for some way of cutting the input there are additional complete parses (no regex terminal involved)" if v == 2 else
                     "the parser reports that it cannot continue on a proper prefix of a word of the language")
             res.violation(what, infos[i])
 
